@@ -96,7 +96,21 @@ func init() {
 					returned++
 				}
 			}
-			obs = append(obs, fmt.Sprintf("%d/%d", len(limiter), returned))
+			// files actually being read: descriptors open on the FIFOs, minus the harness' own writers
+			reading := 0
+			if ents, err := os.ReadDir("/proc/self/fd"); err == nil {
+				for _, e := range ents {
+					if t, err := os.Readlink("/proc/self/fd/" + e.Name()); err == nil && strings.HasPrefix(t, dir+"/") {
+						reading++
+					}
+				}
+			}
+			for _, r := range reads {
+				if r.writer != nil {
+					reading--
+				}
+			}
+			obs = append(obs, fmt.Sprintf("%d/%d/%d", len(limiter), returned, reading))
 		}
 		// clean up: end every read
 		for _, r := range reads {
